@@ -435,8 +435,33 @@ def run_int_limit(chk, spec):
 	if not ok:
 		chk.fail("repr never raises", f"repr/raises/int-digit-limit-lowered/{spec['what']}/{exc}", f"{spec!r}: with sys.set_int_max_str_digits({spec['limit']}) after import, repr of a {spec['what']} holding an int of {digits} digits raised {exc}")
 
+def run_repr_then_use(chk, spec):
+	"""repr does not change the object - not its cells and not how it answers afterwards: after a rename through a column vector, the same table with and
+	without a repr() in between advertises and resolves the same accessors"""
+	nrows = spec["nrows"]
+	mk = lambda: Table([Vector(list(range(nrows)), name="price"), Vector([str(i) for i in range(nrows)], name="qty")])
+	a, b = mk(), mk()
+	for t in (a, b):
+		if spec["touch_first"]:
+			call(dir, t)
+		call(setattr, t.cols()[0], "name", spec["new"])
+	r = call(repr, a)             # only a is shown
+	if spec["twice"]:
+		call(repr, a)
+	chk.judged("total", ("repr-then-use", nrows, spec["new"], spec["touch_first"], spec["twice"]))
+	if not r.ok:
+		chk.fail("repr never raises", f"repr/raises/table/after-view-rename/{type(r.exc).__name__}", f"{spec!r}: {r!r}")
+		return
+	probes = {"dir": lambda t: sorted(x for x in dir(t) if not x.startswith("_") and x in ("price", "cost", "qty", spec["new"].lower())), "getattr-new": lambda t: list(getattr(t, spec["new"].lower())),
+		"getattr-old": lambda t: list(getattr(t, "price")), "item-new": lambda t: list(t[spec["new"]]), "names": lambda t: t.column_names(), "cell-write": lambda t: t.__setitem__((0, spec["new"].lower()), 7) if nrows else None}
+	for nm, f in probes.items():
+		x, y = call(f, a), call(f, b)
+		if x.ok != y.ok or (x.ok and x.value != y.value):
+			chk.fail("repr does not change the object", f"repr/mutates/table/answers-differently-afterwards/{nm}", f"{spec!r}: after repr(t), {nm} gives {x!r}; the same table without the repr gives {y!r}")
+			return
 
-RUNNERS = {"int_limit": run_int_limit, "str_cells": run_str_cells, "strsub": run_strsub, "vector_truth": run_vector_truth, "table_truth": run_table_truth, "total": run_total}
+
+RUNNERS = {"repr_then_use": run_repr_then_use, "int_limit": run_int_limit, "str_cells": run_str_cells, "strsub": run_strsub, "vector_truth": run_vector_truth, "table_truth": run_table_truth, "total": run_total}
 RUNNERS["recompute"] = recompute.runner("C20")
 
 SIMPLE = {
@@ -477,6 +502,11 @@ def run(chk):
 	recompute.add_cases(chk, "C20")
 	rng = chk.rng
 	chk.observers.append(total)
+	for nrows in (0, 0, 1, 3):
+		for new in ("cost", "Cost", "unit cost"):
+			for touch_first in (False, True):
+				for twice in (False, True):
+					chk.case("repr_then_use", {"nrows": nrows, "new": new, "touch_first": touch_first, "twice": twice}, "repr-then-use")
 	for what in ("int-vector", "float-column-holding-int", "table", "row", "nullable"):
 		for limit, digits in ((640, 800), (640, 4000), (1000, 1001), (0, 5000)):
 			chk.case("int_limit", {"what": what, "limit": limit, "digits": digits}, "int-limit")
